@@ -793,3 +793,35 @@ Proof.
   exists pos. split; [rewrite Hks, Hk1'; apply pos_of_app; exact Hp|].
   apply covered_durable. exists e', f', n'. repeat split; try assumption. lia.
 Qed.
+
+(* ================================================================== *)
+(* C14.15  the crash theorems on runs with faults                        *)
+(* ================================================================== *)
+
+Theorem crash_props_with_faults_proof : forall table n st0, start_ok table n st0 ->
+  forall evs st choice,
+  (exists ev, In ev evs /\ fault_event ev) ->
+  paccept_run table st0 evs = Some st ->
+  no_collision table (d_fly (ps_disk st)) choice = true ->
+  let im := crash_image (ps_disk st) choice in
+  recover_writer table n im <> RecUnknown /\
+  (forall r, recover_writer table n im = RecOk r ->
+     recover_reader table im = Some (Some (r_epoch r, r_segs r)) /\
+     (ps_epoch_n st <> [] ->
+        exists m c, (m <= n_intro st)%nat /\ segs_content (ps_segdocs st) (r_segs r) = Some c /\
+                    same_docs c (content_at st m) = true)) /\
+  (Nat.min (Z.to_nat n) (length (d_snp (ps_disk st0)) + length (commits_of evs)) <= length (d_snp (ps_disk st)))%nat /\
+  (forall k, In (PAck k true) evs ->
+     exists r pos m, recover_writer table n im = RecOk r /\ pos_of k (t_keys (ps_t st)) = Some pos /\ (pos < m <= n_intro st)%nat /\
+       exists c, segs_content (ps_segdocs st) (r_segs r) = Some c /\ same_docs c (content_at st m) = true).
+Proof.
+  intros table n st0 Hstart evs st choice _ H NC im. subst im.
+  destruct (recover_succeeds_proof table n st0 Hstart evs st choice H NC) as [S1 _].
+  destruct (recover_prefix_proof table n st0 Hstart evs st choice H NC) as [P1 _].
+  destruct (retention_proof table n st0 Hstart evs st H) as [R1 _].
+  split; [exact S1|]. split; [|split; [exact R1|]].
+  - intros r Hr. destruct (P1 r Hr) as [A [B _]]. auto.
+  - intros k Hk. apply in_split in Hk. destruct Hk as [evs1 [evs2 ->]].
+    destruct (ack_implies_durable_proof table n st0 Hstart evs1 k evs2 st choice H NC) as [r [pos [m [c [A1 [_ [A3 [A4 [A5 A6]]]]]]]]].
+    exists r, pos, m. repeat split; try assumption; try lia. exists c. auto.
+Qed.
